@@ -1,19 +1,36 @@
 /-
   C02 (translated-code level) — the four digit-removal rounding helpers as the machine translation of
   /repo/src/bid_round.rs has them (`Dec.Gen.Code.bid_round64_2_18`, `bid_round128_19_38`, `bid_round192_39_57`,
-  `bid_round256_58_76` in `DecGen/Code.lean`, regenerated from the Rust source on every run).
+  `bid_round256_58_76` in `DecGen/Code.lean`, regenerated from the Rust source on every run), called as the library calls
+  them: `q`, `x` the `Int32` images of numbers in the routine's domain, the five `&mut bool` out-parameters `false` on entry.
 
-  For every `(q, x)` of the routine's domain and EVERY coefficient word pattern the translated routine returns `.ok` of
-  exactly what the code-shaped model `Dec.RH.roundNN` of `DecModel/RoundHelpers.lean` computes (`…_eq`: bridge), hence,
-  for `C < 10^q`, what the specification `Dec.C02RoundHelpers.Spec` asks (`…_spec`: corollary about the translated code).
+  For every `(q, x)` of the domain (2–18 / 19–38 / 39–57 / 58–76, `1 ≤ x ≤ q − 1`) and EVERY coefficient word pattern:
+    * `bid_roundNN_…_eq`     the translated routine returns `.ok` (no panic: no table index out of range) of exactly what the
+                             code-shaped model `Dec.RH.roundNN` of `DecModel/RoundHelpers.lean` computes on the `.toNat` words;
+    * `bid_roundNN_…_toNat`  the same read through `.toNat` (`roundNN_word(s)`: the model's `C*` consists of `u64` words);
+  and for `C < 10^q`:
+    * `bid_roundNN_…_spec`   the result meets `Dec.C02RoundHelpers.Spec` — `C*` is `C / 10^x` rounded half-even with the
+                             10^(q−x) → 10^(q−x−1) replacement, `incr_exp` says so, and the four indicators are the stated
+                             functions of quotient, remainder and half divisor — now as a theorem about the translated code.
+      For `bid_round256_58_76` this needs `20 ≤ x` (`…_spec`); for `x ≤ 19` (`…_spec_low`, reached by no caller) everything but
+      `is_inexact_lt_midpoint` is right, and that too when `C mod 10^x ≥ 2`: line 945 of bid_round.rs compares `fstar.w[3]`
+      with `BID_TEN2MXTRUNC256[ind].w[2]`.  The translated code has the slip (two `decide +kernel` examples at the end of the
+      section evaluate it), as the compiled code and the model do.
 
-  The translated routines call the translated multi-word multipliers; `mul_64x64_to_128MACH_ok`, `mul_128x128_to_256_ok`,
-  `mul_192x192_to_384_ok`, `mul_256x256_to_512_ok` prove that these return the words of the exact product (the model
-  uses the exact product).
+  The translated routines call the translated multi-word multipliers, word-by-word transcriptions of bid_internal.rs;
+  `mul_64x64_to_128_ok` / `mul_64x64_to_128MACH_ok`, `mul_64x128_full_ok`, `mul_128x128_to_256_ok`, `mul_64x192_to_256_ok`,
+  `mul_192x192_to_384_ok`, `mul_64x256_to_320_ok`, `mul_256x256_to_512_ok` (with `add_128_64_ok`, `add_carry_out_ok`,
+  `add_carry_in_out_ok`) prove that they return `.ok` of the words of the exact product, for all arguments — what the
+  model assumed of them.
 
-  Method.  `extract_lets` turns the join points of the `do` block into local definitions; each block of the routine is then
-  a small `if` tree whose leaves call the join point of the next block, and is matched against the model block of the same
-  name after the `UInt64` tests have been moved to `Nat` (`u64_beq`, `u64_dlt`, …).
+  Method.  `extract_lets` turns the join points (`__do_jp`) the `do` blocks elaborate to into local definitions.  Working
+  from the last block backwards, each join point is shown to return `.ok` of the model's remaining blocks applied to the
+  `.toNat` of its arguments (`hOvf`, `hGt`, `hMid`, `hSplit`, `hMul`, `hjp…` inside the proofs); a block is then a small `if` tree
+  whose leaves call the next join point.  The `UInt64` tests and operations are moved to `Nat` by `u64_beq`, `u64_dlt`,
+  `u64_add`, `u64_sub`, `u64_shr`, … , the short-circuit `if c { true } else { … }` conditions collapse to Boolean
+  expressions (`ite_ok_true`, `ite_ok_false`), after which the two sides have the same conditions and `paths` splits them in
+  step.  Casts: `idx_sub_one`, `idx_cast_sub_one`, `idx_sub` (`(x − 1) as usize`, `(x as usize) − 1`, `(q − x) as usize`),
+  `shift_cast`, `shift_cast_sub` (`BID_EX…[ind] as i32`, `(64 − shift)` as shift amounts); tables: `tbl64_ok … tbl256_ok`.
 -/
 import DecGen.Code
 import DecProofs.Properties.C02RoundHelpers
@@ -1210,5 +1227,496 @@ theorem bid_round192_39_57_spec (qn xn : Nat) (C : Rs.U192) (hq : 39 ≤ qn) (hq
 -- q = 40, x = 39 (rounding to one digit): 95·10^38 → 10 → replaced by 1, incr_exp; through the translated routine
 example : (Code.bid_round192_39_57 40 39 ⟨wU (95 * 10 ^ 38) 0, wU (95 * 10 ^ 38) 1, wU (95 * 10 ^ 38) 2⟩
     false false false false false).toOption = some (⟨1, 0, 0⟩, true, true, false, false, false) := by decide +kernel
+
+/-! ### bid_round256_58_76 -/
+
+def u256 (c : RH.U256) : Rs.U256 := ⟨UInt64.ofNat c.w0, UInt64.ofNat c.w1, UInt64.ofNat c.w2, UInt64.ofNat c.w3⟩
+def n512 (c : Rs.U512) : RH.U512 :=
+  ⟨c.w0.toNat, c.w1.toNat, c.w2.toNat, c.w3.toNat, c.w4.toNat, c.w5.toNat, c.w6.toNat, c.w7.toNat⟩
+
+def out256 (o : RH.U256 × Bool) (fl : RH.Ind) : Rs.U256 × Bool × Bool × Bool × Bool × Bool :=
+  (u256 o.1, o.2, fl.midLtEven, fl.midGtEven, fl.inexLtMid, fl.inexGtMid)
+
+/-- everything `bid_round256_58_76` does after the midpoint has been added, in the model's terms -/
+def rest256 (qn xn : Nat) (c : RH.U256) : Rs.U256 × Bool × Bool × Bool × Bool × Bool :=
+  out256 (RH.r256Ovf qn xn (RH.r256Midpoint (xn - 1)
+      (RH.r256Split (xn - 1) (c.val * tv BID_KX256 4 (xn - 1))).1
+      (RH.r256Split (xn - 1) (c.val * tv BID_KX256 4 (xn - 1))).2
+      (RH.r256Inexact (xn - 1) (RH.r256Split (xn - 1) (c.val * tv BID_KX256 4 (xn - 1))).2)).1)
+    (RH.r256Midpoint (xn - 1)
+      (RH.r256Split (xn - 1) (c.val * tv BID_KX256 4 (xn - 1))).1
+      (RH.r256Split (xn - 1) (c.val * tv BID_KX256 4 (xn - 1))).2
+      (RH.r256Inexact (xn - 1) (RH.r256Split (xn - 1) (c.val * tv BID_KX256 4 (xn - 1))).2)).2
+
+theorem len_KX256 : BID_KX256.length = 300 := by decide +kernel
+theorem len_TRUNC256 : BID_TEN2MXTRUNC256.length = 300 := by decide +kernel
+theorem len_MIDPOINT256 : BID_MIDPOINT256.length = 76 := by decide +kernel
+theorem w_KX256 : C02RoundHelpers.allW BID_KX256 = true := by decide +kernel
+theorem w_MASK256 : C02RoundHelpers.allW BID_MASK256 = true := by decide +kernel
+theorem w_EX256 : ∀ i, i < 75 → tw BID_EX256M256 1 i 0 ≤ 63 := by decide +kernel
+
+/-- `(x as usize) - 1` -/
+theorem idx_cast_sub_one (x : Nat) (h1 : 1 ≤ x) (h2 : x < 2 ^ 31) :
+    UInt64.ofInt (toI (Int32.ofNat x)) - 1 = UInt64.ofNat (x - 1) := by
+  show UInt64.ofInt (Int32.toInt (Int32.ofNat x)) - 1 = _
+  rw [Int32.toInt_ofNat_of_lt h2, ofInt_natCast]
+  exact ofNat_sub_lit x 1 h1 (by omega)
+
+set_option maxHeartbeats 1600000 in
+/-- **Bridge for `bid_round256_58_76`**, for every `1 ≤ x ≤ q − 1` (the branch `x ≤ 19` with its line-945 slip included: the
+translated code has it, the model has it).  One declaration for a 330-line routine: the heartbeat limit is raised, not removed. -/
+theorem bid_round256_58_76_eq (qn xn : Nat) (C : Rs.U256) (hq : 58 ≤ qn) (hq' : qn ≤ 76) (hx : 1 ≤ xn) (hxq : xn + 1 ≤ qn) :
+    Code.bid_round256_58_76 (Int32.ofNat qn) (Int32.ofNat xn) C false false false false false =
+      .ok (u256 (RH.round256 qn xn (n256 C)).cstar, (RH.round256 qn xn (n256 C)).incrExp,
+        (RH.round256 qn xn (n256 C)).ind.midLtEven, (RH.round256 qn xn (n256 C)).ind.midGtEven,
+        (RH.round256 qn xn (n256 C)).ind.inexLtMid, (RH.round256 qn xn (n256 C)).ind.inexGtMid) := by
+  unfold Code.bid_round256_58_76
+  extract_lets qI xI C0 bF P0 Cs0 tmp0 sh0 C1 ind1 t1 ind2 t4 val2 bT jpOvf jpGt val1 fA fB fC CsA CsB CsC jpMul tmpA
+    jp4 jp3 jp2 jp1 jp0
+  have hind2 : ind2 = UInt64.ofNat (qn - xn) := idx_sub qn xn (by omega) (by omega)
+  have hind1 : ind1 = UInt64.ofNat (xn - 1) := idx_cast_sub_one xn hx (by omega)
+  have hn1 : 1 ≤ qn - xn := by omega
+  have hn2 : qn - xn ≤ 75 := by omega
+  have hOvf : ∀ r lt gt ilt igt Cs, jpOvf r lt gt ilt igt Cs =
+      .ok (out256 (RH.r256Ovf qn xn (n256 Cs)) ⟨lt, gt, ilt, igt⟩) := by
+    intro r lt gt ilt igt Cs
+    have e0 : UInt64.ofInt (toI (0 : Nat)) = UInt64.ofNat 0 := rfl
+    have e18 : UInt64.ofInt (toI (18 : Nat)) = UInt64.ofNat 18 := rfl
+    have e19 : UInt64.ofInt (toI (19 : Nat)) = UInt64.ofNat 19 := rfl
+    simp only [jpOvf, val2, t4, hind2, bT, bF, e0, e18, e19]
+    unfold out256 RH.r256Ovf n256
+    generalize qn - xn = n at *
+    have hnn : (UInt64.ofNat n).toNat = n := ofNat_toNat_lt n (by omega)
+    have c19 : decide (UInt64.ofNat n ≤ 19) = decide (n ≤ 19) := by rw [u64_dle, hnn]; rfl
+    have c38 : decide (UInt64.ofNat n ≤ 38) = decide (n ≤ 38) := by rw [u64_dle, hnn]; rfl
+    have c57 : decide (UInt64.ofNat n ≤ 57) = decide (n ≤ 57) := by rw [u64_dle, hnn]; rfl
+    have c20 : (UInt64.ofNat n == 20) = (n == 20) := by rw [u64_beq, hnn]; rfl
+    have c39 : (UInt64.ofNat n == 39) = (n == 39) := by rw [u64_beq, hnn]; rfl
+    simp only [c19, c20, c38, c39, c57]
+    by_cases h19 : n ≤ 19
+    · have e1 : UInt64.ofNat n - 1 = UInt64.ofNat (n - 1) := ofNat_sub_lit n 1 (by omega) (by omega)
+      have l7 := tbl64_ok BID_TEN2K64 n (by simp [BID_TEN2K64]; omega) (by omega)
+      have l8 := tbl64_ok BID_TEN2K64 (n - 1) (by simp [BID_TEN2K64]; omega) (by omega)
+      have b7 := C02RoundHelpers.tw_lt C02RoundHelpers.w_TEN2K64 1 n 0
+      simp only [h19, decide_true, if_true, e1, l7, l8, bind, Except.bind, pure, Except.pure, ite_ok_false]
+      simp only [u64_beq, Bool.decide_eq_true, ofNat_toNat_lt _ b7, UInt64.toNat_zero]
+      split <;> simp [u256, UInt64.ofNat_toNat]
+    · by_cases h20 : n = 20
+      · subst h20
+        have l7 := tbl128_ok BID_TEN2K128 0 (by simp [BID_TEN2K128]) (by omega)
+        have l8 := tbl64_ok BID_TEN2K64 19 (by simp [BID_TEN2K64]) (by omega)
+        have b0 := C02RoundHelpers.tw_lt C02RoundHelpers.w_TEN2K128 2 0 0
+        have b1 := C02RoundHelpers.tw_lt C02RoundHelpers.w_TEN2K128 2 0 1
+        simp only [show ¬ (20 ≤ 19) from by omega, decide_false, if_false, BEq.rfl, if_true, l7, l8, bind, Except.bind, pure,
+          Except.pure, ite_ok_false, Bool.false_eq_true]
+        simp only [u64_beq, Bool.decide_eq_true, ofNat_toNat_lt _ b0, ofNat_toNat_lt _ b1, UInt64.toNat_zero]
+        split <;> simp [u256, UInt64.ofNat_toNat]
+      · have hb20 : (n == 20) = false := by simp [h20]
+        by_cases h38 : n ≤ 38
+        · have e20 : UInt64.ofNat n - 20 = UInt64.ofNat (n - 20) := ofNat_sub_lit n 20 (by omega) (by omega)
+          have e21 : UInt64.ofNat n - 21 = UInt64.ofNat (n - 21) := ofNat_sub_lit n 21 (by omega) (by omega)
+          have l7 := tbl128_ok BID_TEN2K128 (n - 20) (by simp [BID_TEN2K128]; omega) (by omega)
+          have l8 := tbl128_ok BID_TEN2K128 (n - 21) (by simp [BID_TEN2K128]; omega) (by omega)
+          have b0 := C02RoundHelpers.tw_lt C02RoundHelpers.w_TEN2K128 2 (n - 20) 0
+          have b1 := C02RoundHelpers.tw_lt C02RoundHelpers.w_TEN2K128 2 (n - 20) 1
+          simp only [h19, hb20, h38, decide_true, decide_false, if_true, if_false, e20, e21, l7, l8, bind, Except.bind, pure,
+            Except.pure, ite_ok_false, Bool.false_eq_true]
+          simp only [u64_beq, Bool.decide_eq_true, ofNat_toNat_lt _ b0, ofNat_toNat_lt _ b1, UInt64.toNat_zero]
+          split <;> simp [u256, UInt64.ofNat_toNat]
+        · by_cases h39 : n = 39
+          · subst h39
+            have l7 := tbl256_ok BID_TEN2K256 0 (by rw [len_TEN2K256]; omega) (by omega)
+            have l8 := tbl128_ok BID_TEN2K128 18 (by simp [BID_TEN2K128]) (by omega)
+            have b0 := C02RoundHelpers.tw_lt C02RoundHelpers.w_TEN2K256 4 0 0
+            have b1 := C02RoundHelpers.tw_lt C02RoundHelpers.w_TEN2K256 4 0 1
+            have b2 := C02RoundHelpers.tw_lt C02RoundHelpers.w_TEN2K256 4 0 2
+            simp only [show ¬ (39 ≤ 19) from by omega, show ¬ (39 ≤ 38) from by omega, show (39 == 20) = false from rfl,
+              decide_false, if_false, BEq.rfl, if_true, l7, l8, bind, Except.bind, pure, Except.pure, ite_ok_false,
+              Bool.false_eq_true]
+            simp only [u64_beq, Bool.decide_eq_true, ofNat_toNat_lt _ b0, ofNat_toNat_lt _ b1, ofNat_toNat_lt _ b2,
+              UInt64.toNat_zero]
+            split <;> simp [u256, UInt64.ofNat_toNat]
+          · have hb39 : (n == 39) = false := by simp [h39]
+            have e39 : UInt64.ofNat n - 39 = UInt64.ofNat (n - 39) := ofNat_sub_lit n 39 (by omega) (by omega)
+            have e40 : UInt64.ofNat n - 40 = UInt64.ofNat (n - 40) := ofNat_sub_lit n 40 (by omega) (by omega)
+            have l7 := tbl256_ok BID_TEN2K256 (n - 39) (by rw [len_TEN2K256]; omega) (by omega)
+            have l8 := tbl256_ok BID_TEN2K256 (n - 40) (by rw [len_TEN2K256]; omega) (by omega)
+            have b0 := C02RoundHelpers.tw_lt C02RoundHelpers.w_TEN2K256 4 (n - 39) 0
+            have b1 := C02RoundHelpers.tw_lt C02RoundHelpers.w_TEN2K256 4 (n - 39) 1
+            have b2 := C02RoundHelpers.tw_lt C02RoundHelpers.w_TEN2K256 4 (n - 39) 2
+            have b3 := C02RoundHelpers.tw_lt C02RoundHelpers.w_TEN2K256 4 (n - 39) 3
+            by_cases h57 : n ≤ 57
+            · simp only [h19, hb20, h38, hb39, h57, decide_true, decide_false, if_true, if_false, e39, e40, l7, l8, bind,
+                Except.bind, pure, Except.pure, ite_ok_false, Bool.false_eq_true]
+              simp only [u64_beq, Bool.decide_eq_true, ofNat_toNat_lt _ b0, ofNat_toNat_lt _ b1, ofNat_toNat_lt _ b2,
+                UInt64.toNat_zero]
+              split <;> simp [u256, UInt64.ofNat_toNat]
+            · simp only [h19, hb20, h38, hb39, h57, decide_false, if_false, e39, e40, l7, l8, bind,
+                Except.bind, pure, Except.pure, ite_ok_false, Bool.false_eq_true]
+              simp only [u64_beq, Bool.decide_eq_true, ofNat_toNat_lt _ b0, ofNat_toNat_lt _ b1, ofNat_toNat_lt _ b2,
+                ofNat_toNat_lt _ b3, UInt64.toNat_zero]
+              split <;> simp [u256, UInt64.ofNat_toNat]
+  have hGt : ∀ r Cs, jpGt r Cs = .ok (out256 (RH.r256Ovf qn xn (n256 Cs)) ⟨false, true, false, false⟩) := by
+    intro r Cs; simp only [jpGt, hOvf, bT, bF]
+  have hi : xn - 1 < 75 := by omega
+  have hs2 := w_EX256 (xn - 1) hi
+  have hs : tw BID_EX256M256 1 (xn - 1) 0 < 2 ^ 31 := by omega
+  have lK := tbl256_ok BID_KX256 (xn - 1) (by rw [len_KX256]; omega) (by omega)
+  have lE := tbl32_ok BID_EX256M256 (xn - 1) (by simp [BID_EX256M256]; omega) (by omega)
+  have lM := tbl64_ok BID_MASK256 (xn - 1) (by simp [BID_MASK256]; omega) (by omega)
+  have lH := tbl64_ok BID_HALF256 (xn - 1) (by simp [BID_HALF256]; omega) (by omega)
+  have lT := tbl256_ok BID_TEN2MXTRUNC256 (xn - 1) (by rw [len_TRUNC256]; omega) (by omega)
+  have bT0 := C02RoundHelpers.tw_lt C02RoundHelpers.w_TRUNC256 4 (xn - 1) 0
+  have bT1 := C02RoundHelpers.tw_lt C02RoundHelpers.w_TRUNC256 4 (xn - 1) 1
+  have bT2 := C02RoundHelpers.tw_lt C02RoundHelpers.w_TRUNC256 4 (xn - 1) 2
+  have bT3 := C02RoundHelpers.tw_lt C02RoundHelpers.w_TRUNC256 4 (xn - 1) 3
+  have bH := C02RoundHelpers.tw_lt C02RoundHelpers.w_HALF256 1 (xn - 1) 0
+  have bM := C02RoundHelpers.tw_lt w_MASK256 1 (xn - 1) 0
+  have bK0 := C02RoundHelpers.tw_lt w_KX256 4 (xn - 1) 0
+  have bK1 := C02RoundHelpers.tw_lt w_KX256 4 (xn - 1) 1
+  have bK2 := C02RoundHelpers.tw_lt w_KX256 4 (xn - 1) 2
+  have bK3 := C02RoundHelpers.tw_lt w_KX256 4 (xn - 1) 3
+  have hv1 : val1 = UInt64.ofNat (xn - 1) := by simp only [val1, t1, hind1]
+  have hvn : (UInt64.ofNat (xn - 1)).toNat = xn - 1 := ofNat_toNat_lt _ (by omega)
+  have cv18 : decide (val1 ≤ 18) = decide (xn - 1 ≤ 18) := by rw [hv1, u64_dle, hvn]; rfl
+  have cv37 : decide (val1 ≤ 37) = decide (xn - 1 ≤ 37) := by rw [hv1, u64_dle, hvn]; rfl
+  have cv56 : decide (val1 ≤ 56) = decide (xn - 1 ≤ 56) := by rw [hv1, u64_dle, hvn]; rfl
+  have cv57 : decide (val1 ≤ 57) = decide (xn - 1 ≤ 57) := by rw [hv1, u64_dle, hvn]; rfl
+  have cb57 : (val1 == 57) = (xn - 1 == 57) := by rw [hv1, u64_beq, hvn]; rfl
+  have hMul : ∀ r C' tmp, jpMul r C' tmp = .ok (rest256 qn xn (n256 C')) := by
+    intro r C' tmp
+    simp (config := {zeta := false}) only [jpMul, hind1, lK, lE, lM, lH, lT, cv18, cv37, cv56, cv57, cb57]
+    simp (config := {zeta := false}) only [bind, Except.bind, mul_256x256_to_512_ok]
+    extract_lets +onlyGivenNames P512 shift jpSplit
+    have hSplit : ∀ r fstar Cstar, jpSplit r fstar Cstar =
+        .ok (out256 (RH.r256Ovf qn xn (RH.r256Midpoint (xn - 1) (n256 Cstar) (n512 fstar)
+              (RH.r256Inexact (xn - 1) (n512 fstar))).1)
+            (RH.r256Midpoint (xn - 1) (n256 Cstar) (n512 fstar) (RH.r256Inexact (xn - 1) (n512 fstar))).2) := by
+      intro r fstar Cstar
+      simp (config := {zeta := false}) only [jpSplit]
+      extract_lets Cd1 Cd2 Cd3 Cd4 jpMid tm1 tm2 tm3 tm4
+      have hMid : ∀ r ilt igt tmp, jpMid r ilt igt tmp =
+          .ok (out256 (RH.r256Ovf qn xn (RH.r256Midpoint (xn - 1) (n256 Cstar) (n512 fstar) ⟨false, false, ilt, igt⟩).1)
+            (RH.r256Midpoint (xn - 1) (n256 Cstar) (n512 fstar) ⟨false, false, ilt, igt⟩).2) := by
+        intro r ilt igt tmp
+        simp only [jpMid, pure, Except.pure, ite_ok_true, ite_ok_false, hOvf, hGt, bT, bF, Cd1, Cd2, Cd3, Cd4]
+        unfold RH.r256Midpoint n256 n512
+        simp only [u64_beq, u64_dle, u64_dlt, ofNat_toNat_lt _ bT0, ofNat_toNat_lt _ bT1, ofNat_toNat_lt _ bT2,
+          ofNat_toNat_lt _ bT3, UInt64.toNat_and, UInt64.toNat_zero, UInt64.toNat_one, Bool.decide_eq_true, u64_sub,
+          show (18446744073709551615 : UInt64).toNat = 18446744073709551615 from rfl]
+        paths
+      simp only [pure, Except.pure, ite_ok_true, ite_ok_false, hMid, bT, bF, tm1, tm2, tm3, tm4]
+      unfold RH.r256Inexact RH.gtT256 RH.gtT256Line945 n512
+      simp only [u64_beq, u64_bne, u64_dle, u64_dlt, ofNat_toNat_lt _ bT0, ofNat_toNat_lt _ bT1, ofNat_toNat_lt _ bT2,
+        ofNat_toNat_lt _ bT3, ofNat_toNat_lt _ bH, UInt64.toNat_zero, Bool.decide_eq_true, u64_sub, GT.gt,
+        decide_eq_true_eq, Bool.or_assoc]
+      paths
+    simp only [hSplit]
+    have hPn : v256 C' * v256 ⟨UInt64.ofNat (tw BID_KX256 4 (xn - 1) 0), UInt64.ofNat (tw BID_KX256 4 (xn - 1) 1),
+        UInt64.ofNat (tw BID_KX256 4 (xn - 1) 2), UInt64.ofNat (tw BID_KX256 4 (xn - 1) 3)⟩ =
+        (n256 C').val * tv BID_KX256 4 (xn - 1) := by
+      unfold v256 n256 RH.U256.val
+      rw [C02RoundHelpers.tv4]
+      simp only [ofNat_toNat_lt _ bK0, ofNat_toNat_lt _ bK1, ofNat_toNat_lt _ bK2, ofNat_toNat_lt _ bK3]
+    have d512 : (default : Rs.U512) = ⟨0, 0, 0, 0, 0, 0, 0, 0⟩ := rfl
+    have d256 : (default : Rs.U256) = ⟨0, 0, 0, 0⟩ := rfl
+    have sc := shift_cast _ hs
+    have scs := shift_cast_sub (tw BID_EX256M256 1 (xn - 1) 0) (by omega)
+    have shr := fun a => u64_shr a _ (by omega : tw BID_EX256M256 1 (xn - 1) 0 < 2 ^ 64)
+    have shl := fun a => u64_shl a _ (by omega : 64 - tw BID_EX256M256 1 (xn - 1) 0 < 2 ^ 64)
+    unfold rest256 RH.r256Split n256 n512
+    simp only [P512, hPn, shift, sc, scs, fA, fB, fC, CsA, CsB, CsC, Cs0, P0, d512, d256, UInt64.toNat_or,
+      UInt64.toNat_and, shr, shl, wU_toNat, ofNat_toNat_lt _ bM, UInt64.toNat_zero, decide_eq_true_eq]
+    paths
+  clear_value jpMul jpOvf jpGt
+  have hfin : Except.ok (u256 (RH.round256 qn xn (n256 C)).cstar, (RH.round256 qn xn (n256 C)).incrExp,
+        (RH.round256 qn xn (n256 C)).ind.midLtEven, (RH.round256 qn xn (n256 C)).ind.midGtEven,
+        (RH.round256 qn xn (n256 C)).ind.inexLtMid, (RH.round256 qn xn (n256 C)).ind.inexGtMid) =
+      (Except.ok (rest256 qn xn (RH.r256AddMid (xn - 1) (n256 C))) : Except String _) := by
+    rw [C02RoundHelpers.round256_unfold]; rfl
+  rw [hfin]
+  unfold RH.r256AddMid
+  have tsimp : ∀ a b : UInt64, (a + b).toNat = RH.add64 a.toNat b.toNat := u64_add
+  by_cases hi18 : xn - 1 ≤ 18
+  · have lMid := tbl64_ok BID_MIDPOINT64 (xn - 1) (by simp [BID_MIDPOINT64]; omega) (by omega)
+    have bMid := C02RoundHelpers.tw_lt C02RoundHelpers.w_MIDPOINT64 1 (xn - 1) 0
+    simp only [cv18, hi18, decide_true, if_true, hind1, lMid, bind, Except.bind, hMul, tmpA, C1, C0]
+    unfold RH.r256Add0
+    simp only [n256, u64_dlt, u64_beq, u64_add, ofNat_toNat_lt _ bMid, UInt64.toNat_one, UInt64.toNat_zero,
+      decide_eq_true_eq]
+    paths
+  · by_cases hi37 : xn - 1 ≤ 37
+    · have e19 : UInt64.ofNat (xn - 1) - 19 = UInt64.ofNat (xn - 1 - 19) := ofNat_sub_lit _ 19 (by omega) (by omega)
+      have lMid := tbl128_ok BID_MIDPOINT128 (xn - 1 - 19) (by simp [BID_MIDPOINT128]; omega) (by omega)
+      have bMid0 := C02RoundHelpers.tw_lt C02RoundHelpers.w_MIDPOINT128 2 (xn - 1 - 19) 0
+      have bMid1 := C02RoundHelpers.tw_lt C02RoundHelpers.w_MIDPOINT128 2 (xn - 1 - 19) 1
+      have hjp4 : ∀ r Cc, jp4 r Cc =
+          .ok (rest256 qn xn (RH.r256Add1 (n256 Cc) (tw BID_MIDPOINT128 2 (xn - 1 - 19) 1))) := by
+        intro r Cc
+        simp only [jp4, hind1, e19, lMid, bind, Except.bind, hMul]
+        unfold RH.r256Add1
+        simp only [n256, u64_dlt, u64_beq, u64_add, ofNat_toNat_lt _ bMid1, UInt64.toNat_one, UInt64.toNat_zero,
+          decide_eq_true_eq]
+        paths
+      simp only [cv18, cv37, hi18, hi37, decide_true, decide_false, if_true, if_false, Bool.false_eq_true, hind1, e19, lMid,
+        bind, Except.bind, hjp4, tmpA, C1, C0]
+      unfold RH.r256Add0
+      simp only [n256, u64_dlt, u64_beq, u64_add, ofNat_toNat_lt _ bMid0, UInt64.toNat_one, UInt64.toNat_zero,
+        decide_eq_true_eq]
+      paths
+    · by_cases hi57 : xn - 1 ≤ 57
+      · have e38 : UInt64.ofNat (xn - 1) - 38 = UInt64.ofNat (xn - 1 - 38) := ofNat_sub_lit _ 38 (by omega) (by omega)
+        have lMid := tbl192_ok BID_MIDPOINT192 (xn - 1 - 38) (by rw [len_MIDPOINT192]; omega) (by omega)
+        have bMid0 := C02RoundHelpers.tw_lt C02RoundHelpers.w_MIDPOINT192 3 (xn - 1 - 38) 0
+        have bMid1 := C02RoundHelpers.tw_lt C02RoundHelpers.w_MIDPOINT192 3 (xn - 1 - 38) 1
+        have bMid2 := C02RoundHelpers.tw_lt C02RoundHelpers.w_MIDPOINT192 3 (xn - 1 - 38) 2
+        have hjp3 : ∀ r Cc, jp3 r Cc =
+            .ok (rest256 qn xn (RH.r256Add2 (n256 Cc) (tw BID_MIDPOINT192 3 (xn - 1 - 38) 2))) := by
+          intro r Cc
+          simp only [jp3, hind1, e38, lMid, bind, Except.bind, hMul]
+          unfold RH.r256Add2
+          simp only [n256, u64_dlt, u64_beq, u64_add, ofNat_toNat_lt _ bMid2, UInt64.toNat_one, UInt64.toNat_zero,
+            decide_eq_true_eq]
+          paths
+        have hjp2 : ∀ r Cc, jp2 r Cc =
+            .ok (rest256 qn xn (RH.r256Add2 (RH.r256Add1 (n256 Cc) (tw BID_MIDPOINT192 3 (xn - 1 - 38) 1))
+              (tw BID_MIDPOINT192 3 (xn - 1 - 38) 2))) := by
+          intro r Cc
+          simp only [jp2, hind1, e38, lMid, bind, Except.bind, hjp3]
+          unfold RH.r256Add1
+          simp only [n256, u64_dlt, u64_beq, u64_add, ofNat_toNat_lt _ bMid1, UInt64.toNat_one, UInt64.toNat_zero,
+            decide_eq_true_eq]
+          paths
+        simp only [cv18, cv37, cv57, hi18, hi37, hi57, decide_true, decide_false, if_true, if_false, Bool.false_eq_true,
+          hind1, e38, lMid, bind, Except.bind, hjp2, tmpA, C1, C0]
+        unfold RH.r256Add0
+        simp only [n256, u64_dlt, u64_beq, u64_add, ofNat_toNat_lt _ bMid0, UInt64.toNat_one, UInt64.toNat_zero,
+          decide_eq_true_eq]
+        paths
+      · have e58 : UInt64.ofNat (xn - 1) - 58 = UInt64.ofNat (xn - 1 - 58) := ofNat_sub_lit _ 58 (by omega) (by omega)
+        have lMid := tbl256_ok BID_MIDPOINT256 (xn - 1 - 58) (by rw [len_MIDPOINT256]; omega) (by omega)
+        have bMid0 := C02RoundHelpers.tw_lt C02RoundHelpers.w_MIDPOINT256 4 (xn - 1 - 58) 0
+        have bMid1 := C02RoundHelpers.tw_lt C02RoundHelpers.w_MIDPOINT256 4 (xn - 1 - 58) 1
+        have bMid2 := C02RoundHelpers.tw_lt C02RoundHelpers.w_MIDPOINT256 4 (xn - 1 - 58) 2
+        have bMid3 := C02RoundHelpers.tw_lt C02RoundHelpers.w_MIDPOINT256 4 (xn - 1 - 58) 3
+        have hjp1 : ∀ r Cc, jp1 r Cc =
+            .ok (rest256 qn xn (RH.r256Add3 (RH.r256Add2 (n256 Cc) (tw BID_MIDPOINT256 4 (xn - 1 - 58) 2))
+              (tw BID_MIDPOINT256 4 (xn - 1 - 58) 3))) := by
+          intro r Cc
+          simp only [jp1, hind1, e58, lMid, bind, Except.bind, hMul]
+          unfold RH.r256Add3 RH.r256Add2
+          simp only [n256, u64_dlt, u64_beq, u64_add, ofNat_toNat_lt _ bMid2, ofNat_toNat_lt _ bMid3, UInt64.toNat_one,
+            UInt64.toNat_zero, decide_eq_true_eq]
+          paths
+        have hjp0 : ∀ r Cc, jp0 r Cc =
+            .ok (rest256 qn xn (RH.r256Add3 (RH.r256Add2 (RH.r256Add1 (n256 Cc) (tw BID_MIDPOINT256 4 (xn - 1 - 58) 1))
+              (tw BID_MIDPOINT256 4 (xn - 1 - 58) 2)) (tw BID_MIDPOINT256 4 (xn - 1 - 58) 3))) := by
+          intro r Cc
+          simp only [jp0, hind1, e58, lMid, bind, Except.bind, hjp1]
+          unfold RH.r256Add1
+          simp only [n256, u64_dlt, u64_beq, u64_add, ofNat_toNat_lt _ bMid1, UInt64.toNat_one, UInt64.toNat_zero,
+            decide_eq_true_eq]
+          paths
+        simp only [cv18, cv37, cv57, hi18, hi37, hi57, decide_false, if_false, Bool.false_eq_true,
+          hind1, e58, lMid, bind, Except.bind, hjp0, tmpA, C1, C0]
+        unfold RH.r256Add0
+        simp only [n256, u64_dlt, u64_beq, u64_add, ofNat_toNat_lt _ bMid0, UInt64.toNat_one, UInt64.toNat_zero,
+          decide_eq_true_eq]
+        paths
+
+
+theorem v256_u256 (c : RH.U256) (h0 : c.w0 < 2 ^ 64) (h1 : c.w1 < 2 ^ 64) (h2 : c.w2 < 2 ^ 64) (h3 : c.w3 < 2 ^ 64) :
+    v256 (u256 c) = c.val := by
+  unfold v256 u256 RH.U256.val
+  simp only [ofNat_toNat_lt _ h0, ofNat_toNat_lt _ h1, ofNat_toNat_lt _ h2, ofNat_toNat_lt _ h3]
+
+/-- **`bid_round256_58_76` as translated meets the specification** for `58 ≤ q ≤ 76`, `20 ≤ x ≤ q − 1`, `C < 10^q` (this contains
+every call in bid128_fma.rs). -/
+theorem bid_round256_58_76_spec (qn xn : Nat) (C : Rs.U256) (hq : 58 ≤ qn) (hq' : qn ≤ 76) (hx : 20 ≤ xn)
+    (hxq : xn + 1 ≤ qn) (hC : v256 C < 10 ^ qn) :
+    ∃ (cs : Rs.U256) (incr lt gt ilt igt : Bool),
+      Code.bid_round256_58_76 (Int32.ofNat qn) (Int32.ofNat xn) C false false false false false =
+        .ok (cs, incr, lt, gt, ilt, igt) ∧
+      C02RoundHelpers.Spec qn xn (v256 C) (v256 cs) incr ⟨lt, gt, ilt, igt⟩ := by
+  have hv : (n256 C).val = v256 C := rfl
+  obtain ⟨hs, hb0, hb1, hb2, hb3⟩ := C02RoundHelpers.round256_spec qn xn (n256 C) hq hq' hx hxq C.w0.toNat_lt
+    C.w1.toNat_lt C.w2.toNat_lt C.w3.toNat_lt (by rw [hv]; exact hC)
+  refine ⟨_, _, _, _, _, _, bid_round256_58_76_eq qn xn C hq hq' (by omega) hxq, ?_⟩
+  rw [v256_u256 _ hb0 hb1 hb2 hb3, ← hv]
+  exact hs
+
+/-- **`bid_round256_58_76` as translated, `x ≤ 19`** (reached by no caller): `C*`, `incr_exp` and three indicators are as
+specified — the result with `is_inexact_lt_midpoint` corrected meets `Spec` — and so is that indicator when the discarded
+part `C mod 10^x` is at least 2.  For `C mod 10^x ∈ {0, 1}` it can be wrong, in the translated code as in the compiled one:
+see the two examples below. -/
+theorem bid_round256_58_76_spec_low (qn xn : Nat) (C : Rs.U256) (hq : 58 ≤ qn) (hq' : qn ≤ 76) (hx : 1 ≤ xn) (hx' : xn ≤ 19)
+    (hxq : xn + 1 ≤ qn) (hC : v256 C < 10 ^ qn) :
+    ∃ (cs : Rs.U256) (incr lt gt ilt igt : Bool),
+      Code.bid_round256_58_76 (Int32.ofNat qn) (Int32.ofNat xn) C false false false false false =
+        .ok (cs, incr, lt, gt, ilt, igt) ∧
+      C02RoundHelpers.Spec qn xn (v256 C) (v256 cs) incr
+        ⟨lt, gt, decide (0 < v256 C % 10 ^ xn ∧ v256 C % 10 ^ xn < 10 ^ xn / 2), igt⟩ ∧
+      (2 ≤ v256 C % 10 ^ xn → C02RoundHelpers.Spec qn xn (v256 C) (v256 cs) incr ⟨lt, gt, ilt, igt⟩) := by
+  have hv : (n256 C).val = v256 C := rfl
+  obtain ⟨hs, hs2, hb0, hb1, hb2, hb3⟩ := C02RoundHelpers.round256_spec_low qn xn (n256 C) hq' hx hx' hxq C.w0.toNat_lt
+    C.w1.toNat_lt C.w2.toNat_lt C.w3.toNat_lt (by rw [hv]; exact hC)
+  refine ⟨_, _, _, _, _, _, bid_round256_58_76_eq qn xn C hq hq' hx hxq, ?_, ?_⟩
+  · rw [v256_u256 _ hb0 hb1 hb2 hb3, ← hv]
+    exact hs
+  · intro h2
+    rw [v256_u256 _ hb0 hb1 hb2 hb3, ← hv]
+    exact hs2 (by rw [hv]; exact h2)
+
+-- q = 68, x = 34 (a 68-digit product rounded to 34 digits): all nines, through the translated routine
+example : (Code.bid_round256_58_76 68 34 ⟨wU (10 ^ 68 - 1) 0, wU (10 ^ 68 - 1) 1, wU (10 ^ 68 - 1) 2, wU (10 ^ 68 - 1) 3⟩
+    false false false false false).toOption =
+    some (⟨wU (10 ^ 33) 0, wU (10 ^ 33) 1, 0, 0⟩, true, false, false, false, true) := by decide +kernel
+-- line 945 in the translated code: q = 58, x = 4, C = 3·10^57 + 1 — inexact, yet no indicator is set
+example : (Code.bid_round256_58_76 58 4 ⟨wU (3 * 10 ^ 57 + 1) 0, wU (3 * 10 ^ 57 + 1) 1, wU (3 * 10 ^ 57 + 1) 2,
+    wU (3 * 10 ^ 57 + 1) 3⟩ false false false false false).toOption =
+    some (⟨wU (3 * 10 ^ 53) 0, wU (3 * 10 ^ 53) 1, wU (3 * 10 ^ 53) 2, 0⟩, false, false, false, false, false) := by
+  decide +kernel
+-- … and q = 76, x = 17, C = 7·10^75 — exact, yet is_inexact_lt_midpoint is set
+example : (Code.bid_round256_58_76 76 17 ⟨wU (7 * 10 ^ 75) 0, wU (7 * 10 ^ 75) 1, wU (7 * 10 ^ 75) 2, wU (7 * 10 ^ 75) 3⟩
+    false false false false false).toOption =
+    some (⟨wU (7 * 10 ^ 58) 0, wU (7 * 10 ^ 58) 1, wU (7 * 10 ^ 58) 2, wU (7 * 10 ^ 58) 3⟩,
+      false, false, false, true, false) := by decide +kernel
+
+section
+open Dec.C02RoundHelpers
+/-! ### The model's `C*` is made of `u64` words for every coefficient (so `.toNat` of the translated result IS the model's) -/
+
+theorem round64_word (q x C : Nat) (hq : 2 ≤ q) (hq' : q ≤ 18) (hx : 1 ≤ x) (hxq : x + 1 ≤ q) :
+    (RH.round64 q x C).cstar < 2 ^ 64 := by
+  rw [round64_unfold]
+  simp only []
+  have hn : q - x ≤ 19 := by omega
+  generalize hP : RH.add64 C (tw BID_MIDPOINT64 1 (x - 1) 0) * tw BID_KX64 1 (x - 1) 0 = P
+  have hc : RH.shr64 (RH.wd P 1) (tw BID_EX64M64 1 (x - 1) 0) < 2 ^ 64 := by
+    unfold RH.shr64 RH.wd
+    rw [Nat.shiftRight_eq_div_pow]
+    exact Nat.lt_of_le_of_lt (Nat.div_le_self _ _) (Nat.mod_lt _ (by decide))
+  have hf0 : RH.wd P 0 < 2 ^ 64 := Nat.mod_lt _ (by decide)
+  have hf1 : RH.wd P 1 &&& tw BID_MASK64 1 (x - 1) 0 < 2 ^ 64 :=
+    Nat.lt_of_le_of_lt Nat.and_le_left (Nat.mod_lt _ (by decide))
+  obtain ⟨_, m0⟩ := r64Midpoint_spec (x - 1) _ _ _
+    (RH.r64Inexact (x - 1) (RH.wd P 1 &&& tw BID_MASK64 1 (x - 1) 0) (RH.wd P 0)) hc hf0 hf1
+  exact (r64Ovf_spec q x _ (by omega) hn m0).2
+
+theorem round128_words (q x : Nat) (C : RH.U128) (hq : 19 ≤ q) (hq' : q ≤ 38) (hx : 1 ≤ x) (hxq : x + 1 ≤ q)
+    (h0 : C.w0 < 2 ^ 64) (h1 : C.w1 < 2 ^ 64) :
+    (RH.round128 q x C).cstar.w0 < 2 ^ 64 ∧ (RH.round128 q x C).cstar.w1 < 2 ^ 64 := by
+  obtain ⟨i, rfl⟩ : ∃ i, x = i + 1 := ⟨x - 1, by omega⟩
+  have hi : i < 37 := by omega
+  obtain ⟨⟨hs1, hs2, hmsk, _⟩, _, hKlt⟩ := tbl128 i hi
+  rw [round128_unfold]
+  simp only [Nat.add_sub_cancel]
+  obtain ⟨a0, a1, _⟩ := r128AddMid_spec i C h0 h1
+  generalize RH.r128AddMid i C = C' at *
+  have hP : C'.val * tv BID_KX128 2 i < 2 ^ 256 := by
+    have : C'.val < 2 ^ 128 := by unfold RH.U128.val; omega
+    calc C'.val * tv BID_KX128 2 i < 2 ^ 128 * 2 ^ 128 := Nat.mul_lt_mul'' this hKlt
+      _ = 2 ^ 256 := by rw [← Nat.pow_add]
+  obtain ⟨_, s0, s1, _, f0, f1, f2, f3, _⟩ := r128Split_spec i _ hP hs1 hs2 hmsk
+  generalize RH.r128Split i (C'.val * tv BID_KX128 2 i) = sp at *
+  obtain ⟨_, m0, m1⟩ := r128Midpoint_spec i sp.1 sp.2 (RH.r128Inexact i sp.2) s0 s1 f0 f1 f2 f3
+  obtain ⟨_, o0, o1⟩ := r128Ovf_spec q (i + 1) _ (by omega) (by omega) m0 m1
+  exact ⟨o0, o1⟩
+
+theorem round192_words (q x : Nat) (C : RH.U192) (hq : 39 ≤ q) (hq' : q ≤ 57) (hx : 1 ≤ x) (hxq : x + 1 ≤ q)
+    (h0 : C.w0 < 2 ^ 64) (h1 : C.w1 < 2 ^ 64) (h2 : C.w2 < 2 ^ 64) :
+    (RH.round192 q x C).cstar.w0 < 2 ^ 64 ∧ (RH.round192 q x C).cstar.w1 < 2 ^ 64 ∧
+    (RH.round192 q x C).cstar.w2 < 2 ^ 64 := by
+  obtain ⟨i, rfl⟩ : ∃ i, x = i + 1 := ⟨x - 1, by omega⟩
+  have hi : i < 56 := by omega
+  obtain ⟨⟨hs1, hs2, hmsk, _⟩, _, hKlt⟩ := tbl192 i hi
+  rw [round192_unfold]
+  simp only [Nat.add_sub_cancel]
+  obtain ⟨a0, a1, a2, _⟩ := r192AddMid_spec i C h0 h1 h2
+  generalize RH.r192AddMid i C = C' at *
+  have hP : C'.val * tv BID_KX192 3 i < 2 ^ 384 := by
+    have : C'.val < 2 ^ 192 := by unfold RH.U192.val; omega
+    calc C'.val * tv BID_KX192 3 i < 2 ^ 192 * 2 ^ 192 := Nat.mul_lt_mul'' this hKlt
+      _ = 2 ^ 384 := by rw [← Nat.pow_add]
+  obtain ⟨_, s0, s1, s2, _, f0, f1, f2, f3, f4, f5, _⟩ := r192Split_spec i _ hP hs1 hs2 hmsk
+  generalize RH.r192Split i (C'.val * tv BID_KX192 3 i) = sp at *
+  obtain ⟨_, m0, m1, m2⟩ := r192Midpoint_spec i sp.1 sp.2 (RH.r192Inexact i sp.2) s0 s1 s2 f0 f1 f2 f3 f4 f5
+  obtain ⟨_, o0, o1, o2⟩ := r192Ovf_spec q (i + 1) _ (by omega) (by omega) m0 m1 m2
+  exact ⟨o0, o1, o2⟩
+
+theorem round256_words (q x : Nat) (C : RH.U256) (hq : 58 ≤ q) (hq' : q ≤ 76) (hx : 1 ≤ x) (hxq : x + 1 ≤ q)
+    (h0 : C.w0 < 2 ^ 64) (h1 : C.w1 < 2 ^ 64) (h2 : C.w2 < 2 ^ 64) (h3 : C.w3 < 2 ^ 64) :
+    (RH.round256 q x C).cstar.w0 < 2 ^ 64 ∧ (RH.round256 q x C).cstar.w1 < 2 ^ 64 ∧
+    (RH.round256 q x C).cstar.w2 < 2 ^ 64 ∧ (RH.round256 q x C).cstar.w3 < 2 ^ 64 := by
+  obtain ⟨i, rfl⟩ : ∃ i, x = i + 1 := ⟨x - 1, by omega⟩
+  have hi : i < 75 := by omega
+  obtain ⟨_, _, _, _, hKlt⟩ := tbl256_all i hi
+  rw [round256_unfold]
+  simp only [Nat.add_sub_cancel]
+  obtain ⟨a0, a1, a2, a3, _⟩ := r256AddMid_spec i C h0 h1 h2 h3
+  generalize RH.r256AddMid i C = C' at *
+  have hP : C'.val * tv BID_KX256 4 i < 2 ^ 512 := by
+    have : C'.val < 2 ^ 256 := by unfold RH.U256.val; omega
+    calc C'.val * tv BID_KX256 4 i < 2 ^ 256 * 2 ^ 256 := Nat.mul_lt_mul'' this hKlt
+      _ = 2 ^ 512 := by rw [← Nat.pow_add]
+  have hsp := r256Split_spec i hi _ hP
+  unfold Split256OK at hsp
+  obtain ⟨_, s0, s1, s2, s3, _, f0, f1, f2, f3, f4, f5, f6, f7, _⟩ := hsp
+  generalize RH.r256Split i (C'.val * tv BID_KX256 4 i) = sp at *
+  obtain ⟨_, m0, m1, m2, m3⟩ :=
+    r256Midpoint_spec i sp.1 sp.2 (RH.r256Inexact i sp.2) s0 s1 s2 s3 f0 f1 f2 f3 f4 f5 f6 f7
+  obtain ⟨_, o0, o1, o2, o3⟩ := r256Ovf_spec q (i + 1) _ (by omega) (by omega) m0 m1 m2 m3
+  exact ⟨o0, o1, o2, o3⟩
+end
+
+theorem n128_u128 (c : RH.U128) (h0 : c.w0 < 2 ^ 64) (h1 : c.w1 < 2 ^ 64) : n128 (u128 c) = c := by
+  unfold n128 u128; simp only [ofNat_toNat_lt _ h0, ofNat_toNat_lt _ h1]
+theorem n192_u192 (c : RH.U192) (h0 : c.w0 < 2 ^ 64) (h1 : c.w1 < 2 ^ 64) (h2 : c.w2 < 2 ^ 64) : n192 (u192 c) = c := by
+  unfold n192 u192; simp only [ofNat_toNat_lt _ h0, ofNat_toNat_lt _ h1, ofNat_toNat_lt _ h2]
+theorem n256_u256 (c : RH.U256) (h0 : c.w0 < 2 ^ 64) (h1 : c.w1 < 2 ^ 64) (h2 : c.w2 < 2 ^ 64) (h3 : c.w3 < 2 ^ 64) :
+    n256 (u256 c) = c := by
+  unfold n256 u256; simp only [ofNat_toNat_lt _ h0, ofNat_toNat_lt _ h1, ofNat_toNat_lt _ h2, ofNat_toNat_lt _ h3]
+
+/-- **The bridges read through `.toNat`**: the translated routine returns `.ok`, and its result — the words of `C*` through
+`.toNat`, `incr_exp`, the four indicators — is the model's output on the `.toNat` words of `C`, for every coefficient. -/
+theorem bid_round64_2_18_toNat (qn xn : Nat) (C : UInt64) (hq : 2 ≤ qn) (hq' : qn ≤ 18) (hx : 1 ≤ xn) (hxq : xn + 1 ≤ qn) :
+    ∃ (cs : UInt64) (incr lt gt ilt igt : Bool),
+      Code.bid_round64_2_18 (Int32.ofNat qn) (Int32.ofNat xn) C false false false false false =
+        .ok (cs, incr, lt, gt, ilt, igt) ∧
+      cs.toNat = (RH.round64 qn xn C.toNat).cstar ∧ incr = (RH.round64 qn xn C.toNat).incrExp ∧
+      (⟨lt, gt, ilt, igt⟩ : RH.Ind) = (RH.round64 qn xn C.toNat).ind :=
+  ⟨_, _, _, _, _, _, bid_round64_2_18_eq qn xn C hq hq' hx hxq,
+    ofNat_toNat_lt _ (round64_word qn xn C.toNat hq hq' hx hxq), rfl, rfl⟩
+
+theorem bid_round128_19_38_toNat (qn xn : Nat) (C : Rs.U128) (hq : 19 ≤ qn) (hq' : qn ≤ 38) (hx : 1 ≤ xn)
+    (hxq : xn + 1 ≤ qn) :
+    ∃ (cs : Rs.U128) (incr lt gt ilt igt : Bool),
+      Code.bid_round128_19_38 (Int32.ofNat qn) (Int32.ofNat xn) C false false false false false =
+        .ok (cs, incr, lt, gt, ilt, igt) ∧
+      n128 cs = (RH.round128 qn xn (n128 C)).cstar ∧ incr = (RH.round128 qn xn (n128 C)).incrExp ∧
+      (⟨lt, gt, ilt, igt⟩ : RH.Ind) = (RH.round128 qn xn (n128 C)).ind := by
+  obtain ⟨b0, b1⟩ := round128_words qn xn (n128 C) hq hq' hx hxq C.w0.toNat_lt C.w1.toNat_lt
+  exact ⟨_, _, _, _, _, _, bid_round128_19_38_eq qn xn C hq hq' hx hxq, n128_u128 _ b0 b1, rfl, rfl⟩
+
+theorem bid_round192_39_57_toNat (qn xn : Nat) (C : Rs.U192) (hq : 39 ≤ qn) (hq' : qn ≤ 57) (hx : 1 ≤ xn)
+    (hxq : xn + 1 ≤ qn) :
+    ∃ (cs : Rs.U192) (incr lt gt ilt igt : Bool),
+      Code.bid_round192_39_57 (Int32.ofNat qn) (Int32.ofNat xn) C false false false false false =
+        .ok (cs, incr, lt, gt, ilt, igt) ∧
+      n192 cs = (RH.round192 qn xn (n192 C)).cstar ∧ incr = (RH.round192 qn xn (n192 C)).incrExp ∧
+      (⟨lt, gt, ilt, igt⟩ : RH.Ind) = (RH.round192 qn xn (n192 C)).ind := by
+  obtain ⟨b0, b1, b2⟩ := round192_words qn xn (n192 C) hq hq' hx hxq C.w0.toNat_lt C.w1.toNat_lt C.w2.toNat_lt
+  exact ⟨_, _, _, _, _, _, bid_round192_39_57_eq qn xn C hq hq' hx hxq, n192_u192 _ b0 b1 b2, rfl, rfl⟩
+
+theorem bid_round256_58_76_toNat (qn xn : Nat) (C : Rs.U256) (hq : 58 ≤ qn) (hq' : qn ≤ 76) (hx : 1 ≤ xn)
+    (hxq : xn + 1 ≤ qn) :
+    ∃ (cs : Rs.U256) (incr lt gt ilt igt : Bool),
+      Code.bid_round256_58_76 (Int32.ofNat qn) (Int32.ofNat xn) C false false false false false =
+        .ok (cs, incr, lt, gt, ilt, igt) ∧
+      n256 cs = (RH.round256 qn xn (n256 C)).cstar ∧ incr = (RH.round256 qn xn (n256 C)).incrExp ∧
+      (⟨lt, gt, ilt, igt⟩ : RH.Ind) = (RH.round256 qn xn (n256 C)).ind := by
+  obtain ⟨b0, b1, b2, b3⟩ := round256_words qn xn (n256 C) hq hq' hx hxq C.w0.toNat_lt C.w1.toNat_lt C.w2.toNat_lt
+    C.w3.toNat_lt
+  exact ⟨_, _, _, _, _, _, bid_round256_58_76_eq qn xn C hq hq' hx hxq, n256_u256 _ b0 b1 b2 b3, rfl, rfl⟩
 
 end Dec.C02GenRound
